@@ -303,7 +303,10 @@ func (m Message) GetMetaSeqData(bt *[]byte) bool {
 	}
 
 	if bt != nil {
-		data := m.metaDataWithoutVarlength()
+		data, err := utils.ReadVarLengthData(bytes.NewReader(m[2:]))
+		if err != nil {
+			return false
+		}
 		*bt = data
 	}
 	return true
